@@ -232,8 +232,8 @@ Section RT.
   Proof.
     induction f as [|f IH].
     - intros t Hd Hw.
-      destruct t as [c body more|ch n content|ts|mk pad ts|mk pad ts next|lv hc hb|rc rn|e0 epre ech edbl ew epost]; [apply rt_para; exact Hw|apply rt_fence; assumption|cbn [depth] in Hd; lia|cbn [depth] in Hd; lia|cbn [depth] in Hd; lia|apply rt_head; exact Hw|apply rt_rule|apply rt_em; exact Hw].
-    - intros t. induction t as [c body more|ch n content|ts|mk pad ts|mk pad ts next IHn|lv hc hb|rc rn|e0 epre ech edbl ew epost]; intros Hd Hw;
+      destruct t as [c body more|ch n content|ts|mk pad ts|mk pad ts bl next|lv hc hb|rc rn|e0 epre ech edbl ew epost]; [apply rt_para; exact Hw|apply rt_fence; assumption|cbn [depth] in Hd; lia|cbn [depth] in Hd; lia|cbn [depth] in Hd; lia|apply rt_head; exact Hw|apply rt_rule|apply rt_em; exact Hw].
+    - intros t. induction t as [c body more|ch n content|ts|mk pad ts|mk pad ts bl next IHn|lv hc hb|rc rn|e0 epre ech edbl ew epost]; intros Hd Hw;
         [apply rt_para; exact Hw|apply rt_fence; assumption| | | |apply rt_head; exact Hw|apply rt_rule|apply rt_em; exact Hw].
       + (* quote *)
         cbn [wf_b] in Hw. repeat rewrite andb_true_iff in Hw. destruct Hw as [[Hs Hall] Hg].
@@ -263,10 +263,10 @@ Section RT.
         destruct (tok_of_chain_is_list true next Hin Hwn) as (s2 & lo2 & items & E2).
         cbn [tok_of spell]. rewrite E2 in *.
         change ((fix seq (ts0 : list ftree) : list tok := match ts0 with [] => [] | t :: r => tok_of true t :: match r with [] => [] | _ :: _ => blank_tok true ++ seq r end end) ts) with (tok_seq true ts).
-        pose proof (rt_item mk pad ts (negb true) true Hw' Hch) as RI. cbn [blank_tok].
+        pose proof (rt_item mk pad ts (if bl then negb true else negb true && (1 <? Z.of_nat (length ts))) bl Hw' Hch) as RI. cbn [blank_tok].
         match goal with |- block_lines ?oo None (List ?s ?l (?x :: items)) = _ =>
           change (block_lines oo None (List s l (x :: items))) with (block_lines o None x ++ block_lines o None (List s2 lo2 items)) end.
-        rewrite RI. unfold o. rewrite IHn. rewrite map_app. cbn [map bare]. rewrite <- app_assoc. reflexivity.
+        rewrite RI. unfold o. rewrite IHn. rewrite !map_app. destruct bl; cbn [map bare app]; rewrite <- ?app_assoc; reflexivity.
   Qed.
 End RT.
 
